@@ -108,7 +108,11 @@ bool rsValuesFacet::SetBasicText(const EntityUID target, const TextInterpretatio
   } else if (!IsBaseSet(core.GetRS(target).type)) {
     return false;
   } else {
-    const auto dataChange = std::ssize(newInterp) != std::ssize(*TextFor(target));
+    // Note: data changes if the set of element identifiers changes, not only their count
+    const auto* oldInterp = TextFor(target);
+    const auto dataChange = std::ssize(newInterp) != std::ssize(*oldInterp) ||
+      std::any_of(std::begin(newInterp), std::end(newInterp),
+                  [&](const auto& element) { return !oldInterp->HasInterpretantFor(element.first); });
     if (!SetTextInternal(target, newInterp)) {
       return false;
     } else {
